@@ -1,10 +1,10 @@
-import LanceModel.C17.Model
+import LanceModel.C17Base.Model
 /-
 C18 model: stable row ids through histories WITH concurrent writers and restores.
 
 The fragment-level table model (physical rows with their row-id sequence entry and deletion bit, the writers of
 create / append / overwrite / delete / update / merge_insert upsert / compaction, the planner) is the one of C17
-(`LanceModel.C17.Model`, imported read-only; its sequential `step` is re-used as it is).  This file adds what C18 is about:
+(a frozen copy of it: `LanceModel.C17Base.Model`, imported read-only; its sequential `step` is re-used as it is).  This file adds what C18 is about:
 
   rust/lance/src/dataset/transaction.rs   Transaction::assign_row_ids — all four arms (no meta: fresh consecutive range from
                                           `next_row_id`; complete meta: untouched; partial meta (merge_insert / update): the
@@ -31,7 +31,7 @@ A history is the list of published manifests (newest first) plus, for each of th
 that published it (what the conflict resolver reads from a committed transaction file).
 -/
 namespace LanceModel.C18
-open LanceModel.Table LanceModel.C17
+open LanceModel.Table LanceModel.C17Base
 
 /-! ## `Transaction::assign_row_ids` -/
 
